@@ -1064,3 +1064,127 @@ Proof.
   destruct Hr as (E1 & _). rewrite E1.
   apply (Rsim_put_data s t (pino x) nd d pm (Some (ptrunc d (Z.to_nat n)))); auto. rewrite <- E1. exact Hn.
 Qed.
+
+(* ---------- Close / Stat / Sync / Name on a handle ---------- *)
+Lemma handle_any s t i h : Rsim s t -> nth_error (mhandles s) i = Some h -> any_handle_ok s i = true ->
+  exists x nd y, nth_error (phandles t) i = Some x /\ hrel2 h x /\ get_node s (href h) = Some nd /\
+                 pinode t (pino x) = Some y /\ irel nd y.
+Proof.
+  intros R Hh Hok. unfold any_handle_ok in Hok. rewrite Hh in Hok.
+  destruct (get_node s (href h)) as [nd|] eqn:Hn; [|discriminate].
+  destruct (F2_nth _ _ _ i h (rs_handles _ _ R) Hh) as (x & Hx & Hr).
+  destruct (proj2 (rs_heap _ _ R) _ nd Hn) as (y & Hy & Hi).
+  exists x, nd, y. repeat split; auto; try apply Hr. destruct Hr as (E & _). now rewrite <- E.
+Qed.
+
+Lemma sim_hclose s t i : Rsim s t -> wf_op_sim s (HClose i) = true -> sim_raw s t (HClose i).
+Proof.
+  intros R Hwf. hop_start R Hwf Hw Hok h Hh.
+  destruct (handle_any s t i h R Hh Hok) as (x & nd & y & Hx & Hr & Hn & Hp & Hi). rewrite Hx, Hn.
+  pose proof Hr as (E1 & E2 & E3 & E4 & E5). rewrite <- E4.
+  destruct (hclosed h) eqn:Ecl; [split; [exact R | reflexivity]|]. cbn [fst snd mproj]. split; [|reflexivity].
+  assert (Rs : Rsim (set_handle s i (set_closed h)) (set_phandle t i (mkPH (pino x) (ppos x) (prdc x) true (pro x)))).
+  { apply Rsim_set_handle; [exact R|]. repeat split; cbn; auto. }
+  destruct (hro h); [exact Rs|]. apply Rsim_core; [exact Rs | apply keeps_mtime | reflexivity].
+Qed.
+
+Lemma sim_hstat s t i : Rsim s t -> wf_op_sim s (HStat i) = true -> sim_raw s t (HStat i).
+Proof.
+  intros R Hwf. hop_start R Hwf Hw Hok h Hh.
+  destruct (handle_any s t i h R Hh Hok) as (x & nd & y & Hx & Hr & Hn & Hp & Hi). rewrite Hx, Hn, Hp.
+  cbn [fst snd mproj finfo_of fi_dir fi_size]. destruct y as [pm|d pm]; cbn in Hi.
+  - destruct Hi as [Hd _]. rewrite Hd. split; [exact R | reflexivity].
+  - destruct Hi as (Hd & Hdat & _). rewrite Hd, Hdat, zlen_to_nat. split; [exact R | reflexivity].
+Qed.
+
+Lemma sim_hsync s t i : Rsim s t -> wf_op_sim s (HSync i) = true -> sim_raw s t (HSync i).
+Proof.
+  intros R Hwf. hop_start R Hwf Hw Hok h Hh.
+  destruct (handle_any s t i h R Hh Hok) as (x & nd & y & Hx & Hr & Hn & Hp & Hi). rewrite Hx, Hn. split; [exact R | reflexivity].
+Qed.
+Lemma sim_hname s t i : Rsim s t -> wf_op_sim s (HName i) = true -> sim_raw s t (HName i).
+Proof.
+  intros R Hwf. hop_start R Hwf Hw Hok h Hh.
+  destruct (handle_any s t i h R Hh Hok) as (x & nd & y & Hx & Hr & Hn & Hp & Hi). rewrite Hx, Hn. split; [exact R | reflexivity].
+Qed.
+
+(* ---------- directory reading ---------- *)
+Lemma plisting_is_listing s t d : Rsim s t -> canon d -> is_listing s d (plisting t d).
+Proof.
+  intros R Hc. pose proof R as [W T N H Hs]. unfold plisting.
+  set (ch := pchildren t d).
+  assert (Hch : forall k, In k ch <-> is_child s d k).
+  { intros k. unfold ch, pchildren. rewrite in_map_iff. split.
+    - intros ([k' v] & E & Hin). cbn in E. subst k'. apply filter_In in Hin as [Hin Hf]. cbn [fst] in Hf.
+      apply andb_true_iff in Hf as [H1 H2]. apply negb_true_iff, beqb_neq in H1. apply beqb_eq in H2.
+      exists v. split; [rewrite T; now apply in_aget | auto].
+    - intros (v & Hl & Hr & Hp). exists (k, v). split; [reflexivity|]. apply filter_In. split.
+      + apply aget_in. change (plookup t k = Some v). now rewrite <- T.
+      + cbn [fst]. apply andb_true_iff. split; [now apply negb_true_iff, beqb_neq | now apply beqb_eq]. }
+  assert (Hnd : NoDup ch).
+  { unfold ch, pchildren. apply (nodup_filter _ (ptree t)). exact N. }
+  assert (Hdec : forall k, In k ch -> k = cpfx d ++ base k).
+  { intros k Hk. apply Hch in Hk as (v & Hl & Hr & Hp). rewrite <- Hp. apply child_decomp; [apply (g_canon _ _ _ _ W k v Hl) | exact Hr]. }
+  assert (Hperm : Permutation (sort_by bltb (map pbase ch)) (map pbase ch)) by apply sort_by_perm.
+  split.
+  - intros x. split.
+    + intros Hx. apply (Permutation_in _ Hperm) in Hx. apply in_map_iff in Hx as (k & <- & Hk). exists k. split; [now apply Hch | reflexivity].
+    + intros (k & Hk & ->). apply (Permutation_in _ (Permutation_sym Hperm)). apply in_map_iff. exists k. split; [reflexivity | now apply Hch].
+  - apply strict_of_sorted_nodup.
+    + apply (sort_by_sorted bltb); [apply bltb_asym | intros a b c; apply bleq_trans].
+    + apply (Permutation_NoDup (Permutation_sym Hperm)).
+      clear - Hnd Hdec. induction ch as [|k ch IH]; cbn; [constructor|]. inversion Hnd as [|? ? Hni Hnd']; subst.
+      constructor; [|apply IH; auto; intros; apply Hdec; now right].
+      intros Hin. apply in_map_iff in Hin as (k' & E & Hk'). apply Hni. change (base k' = base k) in E.
+      assert (Ek : k = k') by (rewrite (Hdec k (or_introl eq_refl)), (Hdec k' (or_intror Hk')); now f_equal).
+      now subst k'.
+Qed.
+
+Lemma pname_of_some t i k : pname_of t i = Some k -> In (k, i) (ptree t).
+Proof.
+  unfold pname_of. destruct (filter (fun kv => Nat.eqb (snd kv) i) (ptree t)) as [|[k' v] r] eqn:E; [discriminate|].
+  intros Hk. inversion Hk; subst k'. assert (Hin : In (k, v) (filter (fun kv => Nat.eqb (snd kv) i) (ptree t))) by (rewrite E; now left).
+  apply filter_In in Hin as [Hin Hv]. cbn in Hv. apply Nat.eqb_eq in Hv. now subst v.
+Qed.
+Lemma pname_of_ex t i k : In (k, i) (ptree t) -> exists k', pname_of t i = Some k'.
+Proof.
+  intros Hin. unfold pname_of. destruct (filter (fun kv => Nat.eqb (snd kv) i) (ptree t)) as [|[k' v] r] eqn:E.
+  - exfalso. assert (Hf : In (k, i) (filter (fun kv => Nat.eqb (snd kv) i) (ptree t))) by (apply filter_In; split; [exact Hin | apply Nat.eqb_refl]).
+    now rewrite E in Hf.
+  - now exists k'.
+Qed.
+
+Lemma sim_readdir nm s t i n : Rsim s t -> wf_op_sim s (rdop nm i n) = true -> sim_raw s t (rdop nm i n).
+Proof.
+  intros R Hwf. pose proof R as [W T N H Hs].
+  assert (Hok : dir_handle_ok s i = true).
+  { unfold wf_op_sim in Hwf. apply andb_true_iff in Hwf as [_ Hok]. now destruct nm. }
+  unfold sim_raw.
+  assert (Ep : p_step t (rdop nm i n) = p_step t (HReaddirnames i n)) by (destruct nm; reflexivity). rewrite Ep. cbn [p_step].
+  destruct (nth_error (mhandles s) i) as [h|] eqn:Hh.
+  2:{ rewrite (F2_nth_none _ _ _ i Hs Hh). destruct nm; cbn [rdop m_step_raw]; unfold m_hop; rewrite Hh; split; try exact R; reflexivity. }
+  unfold dir_handle_ok in Hok. rewrite Hh in Hok. destruct (get_node s (href h)) as [nd|] eqn:Hn; [|discriminate].
+  apply andb_true_iff in Hok as [Hd Hlive].
+  destruct (F2_nth _ _ _ i h Hs Hh) as (x & Hx & Hr). pose proof Hr as (E1 & E2 & E3 & E4 & E5).
+  destruct (proj2 H _ nd Hn) as (y & Hy & Hi). rewrite Hx, <- E1, Hy.
+  destruct y as [pm|dd pm]; cbn in Hi; [|destruct Hi; congruence].
+  apply existsb_exists in Hlive as ([k0 r0] & Hin0 & Er0). cbn in Er0. apply Nat.eqb_eq in Er0. subst r0.
+  assert (Hl0 : lookup s k0 = Some (href h)) by (apply in_aget; [apply (g_nodup _ _ _ _ W) | exact Hin0]).
+  assert (Hin0' : In (k0, href h) (ptree t)) by (apply aget_in; change (plookup t k0 = Some (href h)); now rewrite <- T).
+  destruct (pname_of_ex t (href h) k0 Hin0') as (d & Hd').
+  rewrite Hd'. apply pname_of_some in Hd' as Hind.
+  assert (Hld : lookup s d = Some (href h)) by (rewrite T; now apply in_aget).
+  assert (Hcd : canon d) by (apply (g_canon _ _ _ _ W d _ Hld)).
+  assert (Elist : plisting t d = dir_names s nd).
+  { apply (is_listing_unique s d); [now apply plisting_is_listing | now apply (listing_is_children s d (href h) nd)]. }
+  assert (Hc : 0 <= hrdc h) by lia.
+  rewrite (readdir_page_raw s i h nd n nm Hh Hn Hd Hc). cbv zeta. cbn [fst snd].
+  set (M := skipn (Z.to_nat (hrdc h)) (dir_infos s nd)).
+  assert (Erest : skipn (prdc x) (plisting t d) = map fi_name M).
+  { rewrite Elist. unfold M, dir_names. rewrite skipn_map. f_equal. f_equal. rewrite E3. symmetry. apply Nat2Z.id. }
+  rewrite Erest, map_length. fold (page_out (length M) n).
+  split.
+  - apply Rsim_set_handle; [exact R|]. repeat split; cbn; auto. lia.
+  - rewrite firstn_map.
+    destruct ((0 <? n) && Nat.eqb (length M) 0); destruct nm; reflexivity.
+Qed.
